@@ -4,8 +4,9 @@
     * `depth`: the Go call depth of the `skipField` recursion (skipField → skipFieldList /
       skipFieldMap / SkipToStructEnd → skipField → …), counted in `skipField` frames;
     * `Cost`: the allocation requested by the generated decoders (`make([]T, n)` elements, bytes
-      of `[]int8`/`[]uint8`/strings, map entries), whether every length given to `make` was
-      covered by the remaining input, and the maximal nesting of not-yet-filled slices.
+      of `[]int8`/`[]uint8`/strings, map entries) and the maximal nesting of not-yet-filled
+      slices.  Every `make` happens after `CheckLength` (fix 040488e), as in the model.
+    * `AsFound.vecMake`: the LIST head of `genReadVector` as found before that fix (no check).
   `Proofs/TotalCost.lean` (`skipD_eq`) and `Proofs/TotalAlloc.lean` (`decA_eq`, `decStructA_eq`) prove
   that the first component is exactly the original result.
   Core Lean only.
@@ -82,20 +83,18 @@ def structEndDepth (r : Reader) : Nat := (skipToStructEndD r.fuel r).2
 structure Cost where
   /-- elements requested from `make([]T, n)` + bytes of byte slices and strings + map entries -/
   alloc : Nat
-  /-- every length passed to `make` was at most the number of input bytes remaining -/
-  lenOK : Bool
   /-- maximal number of nested slices allocated but not yet completely filled -/
   nest  : Nat
 deriving Repr, DecidableEq
 
 namespace Cost
-def zero : Cost := ⟨0, true, 0⟩
+def zero : Cost := ⟨0, 0⟩
 /-- two computations one after the other -/
-def seq (a b : Cost) : Cost := ⟨a.alloc + b.alloc, a.lenOK && b.lenOK, max a.nest b.nest⟩
-/-- `make([]T, n)` with `rem` input bytes left, then filling it at cost `c` -/
-def make (n rem : Nat) (c : Cost) : Cost := ⟨n + c.alloc, decide (n ≤ rem) && c.lenOK, c.nest + 1⟩
-/-- a flat allocation of `n` bytes with `rem` input bytes left -/
-def flat (n rem : Nat) : Cost := ⟨n, decide (n ≤ rem), 1⟩
+def seq (a b : Cost) : Cost := ⟨a.alloc + b.alloc, max a.nest b.nest⟩
+/-- `make([]T, n)`, then filling it at cost `c` -/
+def make (n : Nat) (c : Cost) : Cost := ⟨n + c.alloc, c.nest + 1⟩
+/-- a flat allocation of `n` bytes -/
+def flat (n : Nat) : Cost := ⟨n, 1⟩
 end Cost
 
 /-- bytes of the Go string allocated by `ReadString`: only when the field was found and read -/
@@ -119,11 +118,12 @@ def decVarA (env : Env) : Nat → Nat → Bool → Ty → Val → Reader → Res
           match readLen r1 with
           | (.error er, r') => ((.error er, r'), Cost.zero)
           | (.ok len, r2) =>
-            if len < 0 then ((.error (.panic "makeslice"), r2), Cost.zero)
-            else
-              -- x = make([]e, length)
-              let x := decElemsA env fuel e len.toNat [] r2
-              (x.1, Cost.make len.toNat r2.remaining x.2)
+            match checkLength len r2 with
+            | (.error er, r') => ((.error er, r'), Cost.zero)
+            | (.ok (), r3) =>
+              -- x = make([]e, length), after CheckLength
+              let x := decElemsA env fuel e len.toNat [] r3
+              (x.1, Cost.make len.toNat x.2)
         else if tyCur = tySimpleList then
           if e = .i8 ∨ e = .u8 then
             match skipTo tyBYTE 0 true r1 with
@@ -135,8 +135,11 @@ def decVarA (env : Env) : Nat → Nat → Bool → Ty → Val → Reader → Res
                 let oldBytes := match old with
                   | .list vs => int8Bytes vs
                   | _ => []
-                -- ReadSliceInt8/Uint8: `make([]int8, len)` when `len > 0`
-                let c := if len ≤ 0 then Cost.zero else Cost.flat len.toNat r3.remaining
+                -- ReadSliceInt8/Uint8: `make([]int8, len)` when `len > 0` and CheckLength passed
+                let c := if len ≤ 0 then Cost.zero else
+                  match checkLength len r3 with
+                  | (.ok (), _) => Cost.flat len.toNat
+                  | (.error _, _) => Cost.zero
                 match readSlice8 oldBytes len r3 with
                 | (.error er, r') => ((.error er, r'), c)
                 | (.ok bs, r4) => ((.ok (.list (bytesToVals (e = .i8) bs)), r4), c)
@@ -155,7 +158,8 @@ def decVarA (env : Env) : Nat → Nat → Bool → Ty → Val → Reader → Res
               | .list vs => vs
               | _ => []
             -- fixed array: no allocation of its own
-            decArrA env fuel e n 0 len oldVs r2
+            if len > (n : Int) then ((.error .mismatch, r2), Cost.zero)
+            else decArrA env fuel e n 0 len oldVs r2
         else ((.error .mismatch, r1), Cost.zero)
     | .map k v =>
       match skipTo tyMAP tag req r with
@@ -165,7 +169,10 @@ def decVarA (env : Env) : Nat → Nat → Bool → Ty → Val → Reader → Res
         else
           match readLen r1 with
           | (.error er, r') => ((.error er, r'), Cost.zero)
-          | (.ok len, r2) => decPairsA env fuel k v len [] r2
+          | (.ok len, r2) =>
+            match checkLength len r2 with
+            | (.error er, r') => ((.error er, r'), Cost.zero)
+            | (.ok (), r3) => decPairsA env fuel k v len [] r3
     | .struct name =>
       match env.find name, old with
       | some fs, .struct ovs =>
@@ -186,7 +193,7 @@ def decVarA (env : Env) : Nat → Nat → Bool → Ty → Val → Reader → Res
       | _, _ => ((.error (.panic "model: ill-typed target"), r), Cost.zero)
     | t =>
       let x := readScalar t old tag req r
-      (x, ⟨strAlloc tag req r x, true, 0⟩)
+      (x, ⟨strAlloc tag req r x, 0⟩)
 
 def decElemsA (env : Env) : Nat → Ty → Nat → List Val → Reader → Res Val × Cost
   | 0, _, _, _, r => ((.error .fuel, r), Cost.zero)
@@ -229,7 +236,7 @@ def decPairsA (env : Env) : Nat → Ty → Ty → Int → List (Val × Val) → 
         | (.ok b, r2) =>
           -- m[k] = v : one map entry
           let z := decPairsA env fuel k v (len - 1) (mapInsert acc a b keyEq) r2
-          (z.1, Cost.seq (Cost.seq x.2 y.2) (Cost.seq ⟨1, true, 0⟩ z.2))
+          (z.1, Cost.seq (Cost.seq x.2 y.2) (Cost.seq ⟨1, 0⟩ z.2))
 
 def decMembersA (env : Env) : Nat → List Field → List Val → Reader → Res (List Val) × Cost
   | 0, _, _, r => ((.error .fuel, r), Cost.zero)
@@ -257,5 +264,28 @@ def decStructA (env : Env) (name : String) (old : Val) (r : Reader) : Res Val ×
     | (.error er, r') => ((.error er, r'), x.2)
     | (.ok vs, r1) => ((.ok (.struct vs), r1), x.2)
   | _, _ => ((.error (.panic "model: ill-typed target"), r), Cost.zero)
+
+/-! ## the vector head as found (before fix 040488e), for the D11 counterexamples -/
+
+/-- `genReadVector`, LIST branch, AS FOUND: `ReadInt32(&length, 0, true)` directly followed by
+    `make([]T, length)`: a negative length panics, any other length is requested from the
+    allocator without looking at the input.  Returns the number of elements requested. -/
+def AsFound.vecMake (tag : Nat) (req : Bool) : RM Nat := fun r =>
+  match skipToNoCheck tag req r with
+  | (.error er, r') => (.error er, r')
+  | (.ok (_, tyCur), r1) =>
+    if tyCur = tyLIST then
+      match readLen r1 with
+      | (.error er, r') => (.error er, r')
+      | (.ok len, r2) =>
+        if len < 0 then (.error (.panic "makeslice"), r2) else (.ok len.toNat, r2)
+    else (.error .mismatch, r1)
+
+/-- `genReadArray`, LIST branch, AS FOUND: the element loop was entered without comparing the
+    announced length with the array size `n` -/
+def AsFound.arrLoop (env : Env) (fuel : Nat) (e : Ty) (n : Nat) (old : List Val) : RM Val := fun r =>
+  match readLen r with
+  | (.error er, r') => (.error er, r')
+  | (.ok len, r2) => decArr env fuel e n 0 len old r2
 
 end Tars
